@@ -119,6 +119,8 @@ pub fn exec(func: &str, a: &mut Args) -> String {
         "epa2c" => fu4::exec_epa2c(a),
         "epa3" => fu4::exec_epa3(a),
         "epa3c" => fu4::exec_epa3c(a),
+        "csm2" => fu5::exec_csm2(a),
+        "csm3" => fu5::exec_csm3(a),
         _ => "nofn".into(),
     }
 }
@@ -275,6 +277,8 @@ pub fn gen(r: &mut Rng, thorough: bool) -> Vec<(String, String)> {
     }
     fu4::gen(r, thorough, &mut v);
     fu4::gen3(r, thorough, &mut v);
+    fu5::gen2(r, thorough, &mut v);
+    fu5::gen3(r, thorough, &mut v);
     v
 }
 
@@ -634,7 +638,7 @@ pub mod fu4 {
     use crate::p2::shape::{Ball, Cuboid, SupportMap};
     type Iso2 = d2::Isometry<Real2>; type Vec2 = d2::Vector<Real2>; type Real2 = f64;
 
-    fn shape(kind: usize, a: f64, b: f64) -> Box<dyn SupportMap> {
+    pub fn shape(kind: usize, a: f64, b: f64) -> Box<dyn SupportMap> {
         if kind == 0 { Box::new(Cuboid::new(Vec2::new(a, b))) } else { Box::new(Ball::new(a)) }
     }
     pub fn exec_epa2(a: &mut Args) -> String {
@@ -664,7 +668,7 @@ pub mod fu4 {
     }
     // ---- 3-D
     use crate::p3::query::gjk::{self as gjk3, CSOPoint as Cso3, GJKResult as Res3, VoronoiSimplex as Vs3};
-    fn shape3(kind: usize, a: f64, b: f64, c: f64) -> Box<dyn crate::p3::shape::SupportMap> {
+    pub fn shape3(kind: usize, a: f64, b: f64, c: f64) -> Box<dyn crate::p3::shape::SupportMap> {
         if kind == 0 { Box::new(crate::p3::shape::Cuboid::new(d3::Vector::new(a, b, c))) } else { Box::new(crate::p3::shape::Ball::new(a)) }
     }
     /// `epa3`: `EPA::closest_points` of parry3d on a given start simplex.
@@ -780,5 +784,116 @@ pub mod fu4 {
             }
         }
         if std::env::var("VERIF_DBG").is_ok() { eprintln!("C02 epa2 families: gjk-dim0={} gjk-dim1={} gjk-dim2={} dirs={}", fam[0], fam[1], fam[2], fam[3]); }
+    }
+}
+
+// ================================================================== follow-up 5: the complete contact_support_map_support_map
+/// `csm2` / `csm3`: the real `details::contact_support_map_support_map(pos12, g1, g2, prediction)` of parry2d / parry3d on
+/// Cuboid / Ball support maps; nothing but the shapes, `pos12` and `prediction` is an input (the model runs its own GJK, then EPA).
+/// args: k1 a1 b1 [c1] k2 a2 b2 [c2] pos12 prediction
+/// Families (VERIF_DBG=1 prints the distribution by outcome): `mix` (relative translation = a fraction in [-1.6, 1.6] of the sum
+/// box: deep overlap .. grazing .. apart), `gap` (exact rotations, a chosen signed gap along one axis of the sum box: 0, the
+/// prediction itself, just below / above it, small overlaps), `far` (several sizes apart), predictions 0 .. 10.
+pub mod fu5 {
+    use crate::util::*;
+    use super::fu4::{shape, shape3};
+    type Iso2 = d2::Isometry<f64>; type Vec2 = d2::Vector<f64>;
+
+    pub fn exec_csm2(a: &mut Args) -> String {
+        let (k1, a1, b1) = (a.u(), a.f(), a.f()); let (k2, a2, b2) = (a.u(), a.f(), a.f());
+        let pos12 = d2::iso(a); let pred = a.f();
+        let (g1, g2) = (shape(k1, a1, b1), shape(k2, a2, b2));
+        let c = crate::p2::query::details::contact_support_map_support_map(&pos12, &*g1, &*g2, pred);
+        super::c03::two::fcontact(&c)
+    }
+    pub fn exec_csm3(a: &mut Args) -> String {
+        let (k1, a1, b1, c1) = (a.u(), a.f(), a.f(), a.f()); let (k2, a2, b2, c2) = (a.u(), a.f(), a.f(), a.f());
+        let pos12 = d3::iso(a); let pred = a.f();
+        let (g1, g2) = (shape3(k1, a1, b1, c1), shape3(k2, a2, b2, c2));
+        let c = crate::p3::query::details::contact_support_map_support_map(&pos12, &*g1, &*g2, pred);
+        super::c03::fcontact(&c)
+    }
+    fn kinds(r: &mut Rng) -> (usize, usize) { match r.below(6) { 0 => (0, 1), 1 => (1, 0), 2 => (1, 1), _ => (0, 0) } }
+    fn pred_of(r: &mut Rng, lat: bool) -> f64 { if lat { *r.pick(&[0.0, 0.0, 0.125, 0.5, 1.0, 2.0, 10.0]) } else { *r.pick(&[0.0, 0.01, 0.3, 1.0, 7.5]) } }
+    fn gap_of(r: &mut Rng, pred: f64) -> f64 { *r.pick(&[0.0, 0.0, pred, pred - 0.0625, pred + 0.0625, 0.125, 0.25, -0.0625, -0.125, -0.5, 2.0 * pred + 1.0]) }
+
+    pub fn gen2(r: &mut Rng, thorough: bool, v: &mut Vec<(String, String)>) {
+        let n = if thorough { 7000 } else { 700 };
+        let mut fam = [[0usize; 3]; 3];
+        for it in 0..n {
+            let lat = it % 2 == 0;
+            let (k1, k2) = kinds(r);
+            let he = |r: &mut Rng| if lat { *r.pick(&[0.25, 0.5, 1.0, 1.5, 2.0, 3.0]) } else { r.logu(0.05, 20.0) };
+            let (a1, b1, a2, b2) = (he(r), he(r), he(r), he(r));
+            let ext = |k: usize, a: f64, b: f64| if k == 0 { Vec2::new(a, b) } else { Vec2::new(a, a) };
+            let pred = pred_of(r, lat);
+            let f = it % 3;
+            let exact = f == 1 || (lat && r.below(3) != 0);
+            let rot = if exact { *r.pick(&[(1.0, 0.0), (0.0, 1.0), (-1.0, 0.0), (0.0, -1.0)]) } else { d2::gen_rot(r, lat) };
+            // extents of shape 2 seen from frame 1 (exact for the exact rotations; an estimate otherwise)
+            let e2 = ext(k2, a2, b2); let e2 = Vec2::new((rot.0 * e2.x).abs() + (rot.1 * e2.y).abs(), (rot.1 * e2.x).abs() + (rot.0 * e2.y).abs());
+            let hs = ext(k1, a1, b1) + e2;
+            let t = match f {
+                0 => { let g = |r: &mut Rng| if lat { *r.pick(&[-1.5, -1.25, -1.0, -0.75, -0.5, -0.25, 0.0, 0.0, 0.25, 0.5, 0.75, 1.0, 1.25, 1.5]) } else { r.uniform(-1.6, 1.6) };
+                       Vec2::new(hs.x * g(r), hs.y * g(r)) }
+                1 => { let ax = r.below(2) as usize; let s = if r.bool() { 1.0 } else { -1.0 };
+                       let mut t = Vec2::zeros();
+                       if k1 == 1 && k2 == 1 { let d = if lat { *r.pick(&[Vec2::new(1.0, 0.0), Vec2::new(0.0, -1.0), Vec2::new(0.6, 0.8), Vec2::new(-0.8, 0.6)]) } else { let a = r.uniform(0.0, 6.3); Vec2::new(a.cos(), a.sin()) };
+                           t = d * (a1 + a2 + gap_of(r, pred)); }
+                       else { t[ax] = s * (hs[ax] + gap_of(r, pred));
+                              // the other coordinate: inside the face-face range when both are boxes (so that the gap IS the separation), anywhere for a ball
+                              let o = 1 - ax; let m = if k1 == 0 && k2 == 0 { hs[o] } else if k1 == 0 { ext(k1, a1, b1)[o] } else { e2[o] };
+                              t[o] = m * if lat { *r.pick(&[-1.0, -0.5, 0.0, 0.0, 0.25, 1.0]) } else { r.uniform(-1.0, 1.0) }; }
+                       t }
+                _ => { let a = r.uniform(0.0, 6.3); Vec2::new(a.cos(), a.sin()) * (hs.norm() * if lat { *r.pick(&[1.0, 1.5, 4.0]) } else { r.uniform(0.9, 5.0) }) }
+            };
+            let pos12 = Iso2::from_parts(d2::na::Translation2::from(t), d2::na::Unit::new_unchecked(d2::na::Complex::new(rot.0, rot.1)));
+            let (g1, g2) = (shape(k1, a1, b1), shape(k2, a2, b2));
+            let c = crate::p2::query::details::contact_support_map_support_map(&pos12, &*g1, &*g2, pred);
+            fam[f][match c { None => 0, Some(c) if c.dist > 0.0 => 1, _ => 2 }] += 1;
+            v.push(("csm2".into(), format!("{} {} {} {} {} {} {} {}", k1, hx(a1), hx(b1), k2, hx(a2), hx(b2), d2::hiso(&pos12), hx(pred))));
+        }
+        if std::env::var("VERIF_DBG").is_ok() { eprintln!("C02 csm2 families [none, separated, penetrating]: mix={:?} gap={:?} far={:?}", fam[0], fam[1], fam[2]); }
+    }
+
+    pub fn gen3(r: &mut Rng, thorough: bool, v: &mut Vec<(String, String)>) {
+        let n = if thorough { 7000 } else { 700 };
+        let mut fam = [[0usize; 3]; 3];
+        for it in 0..n {
+            let lat = it % 2 == 0;
+            let (k1, k2) = kinds(r);
+            let he = |r: &mut Rng| if lat { *r.pick(&[0.25, 0.5, 1.0, 1.5, 2.0, 3.0]) } else { r.logu(0.05, 20.0) };
+            let (a1, b1, c1, a2, b2, c2) = (he(r), he(r), he(r), he(r), he(r), he(r));
+            let ext = |k: usize, a: f64, b: f64, c: f64| if k == 0 { d3::Vector::new(a, b, c) } else { d3::Vector::new(a, a, a) };
+            let pred = pred_of(r, lat);
+            let f = it % 3;
+            let exact = f == 1 || (lat && r.below(3) != 0);
+            let mut pos12 = if exact { super::c03::iso_of(super::c03::exact_quat(r), d3::Vector::zeros()) } else { d3::gen_iso(r, lat, 1.0) };
+            let rm = pos12.rotation.to_rotation_matrix(); let e2l = ext(k2, a2, b2, c2);
+            let e2 = if k2 == 0 { rm.matrix().abs() * e2l } else { e2l };
+            let e1 = ext(k1, a1, b1, c1);
+            let hs = e1 + e2;
+            let t = match f {
+                0 => { let g = |r: &mut Rng| if lat { *r.pick(&[-1.5, -1.25, -1.0, -0.75, -0.5, -0.25, 0.0, 0.0, 0.25, 0.5, 0.75, 1.0, 1.25, 1.5]) } else { r.uniform(-1.6, 1.6) };
+                       d3::Vector::new(hs.x * g(r), hs.y * g(r), hs.z * g(r)) }
+                1 => { let ax = r.below(3) as usize; let s = if r.bool() { 1.0 } else { -1.0 };
+                       let mut t = d3::Vector::zeros();
+                       if k1 == 1 && k2 == 1 { let d = if lat { *r.pick(&[d3::Vector::new(1.0, 0.0, 0.0), d3::Vector::new(0.0, 0.0, -1.0), d3::Vector::new(0.6, 0.0, 0.8), d3::Vector::new(-0.8, 0.6, 0.0)]) } else { d3::Vector::new(r.uniform(-1.0, 1.0), r.uniform(-1.0, 1.0), r.uniform(-1.0, 1.0) + 1.0e-3).normalize() };
+                           t = d * (a1 + a2 + gap_of(r, pred)); }
+                       else { t[ax] = s * (hs[ax] + gap_of(r, pred));
+                              for o in 0..3 { if o != ax {
+                                  let m = if k1 == 0 && k2 == 0 { hs[o] } else if k1 == 0 { e1[o] } else { e2[o] };
+                                  t[o] = m * if lat { *r.pick(&[-1.0, -0.5, 0.0, 0.0, 0.25, 1.0]) } else { r.uniform(-1.0, 1.0) }; } } }
+                       t }
+                _ => { let d = d3::Vector::new(r.uniform(-1.0, 1.0), r.uniform(-1.0, 1.0), r.uniform(-1.0, 1.0) + 1.0e-3).normalize();
+                       d * (hs.norm() * if lat { *r.pick(&[1.0, 1.5, 4.0]) } else { r.uniform(0.9, 5.0) }) }
+            };
+            pos12.translation.vector = t;
+            let (g1, g2) = (shape3(k1, a1, b1, c1), shape3(k2, a2, b2, c2));
+            let c = crate::p3::query::details::contact_support_map_support_map(&pos12, &*g1, &*g2, pred);
+            fam[f][match c { None => 0, Some(c) if c.dist > 0.0 => 1, _ => 2 }] += 1;
+            v.push(("csm3".into(), format!("{} {} {} {} {} {} {} {} {} {}", k1, hx(a1), hx(b1), hx(c1), k2, hx(a2), hx(b2), hx(c2), d3::hiso(&pos12), hx(pred))));
+        }
+        if std::env::var("VERIF_DBG").is_ok() { eprintln!("C02 csm3 families [none, separated, penetrating]: mix={:?} gap={:?} far={:?}", fam[0], fam[1], fam[2]); }
     }
 }
